@@ -84,6 +84,24 @@ def main(argv=None):
         if r.status == "engine-error":
             faults.append(f"{r.unit}: {r.detail}")
         elif r.status != "ok":
+            # the code left the verifiable subset / the contract no longer binds: undecided for the deductive check.  The bounded
+            # native replay of this unit (labelled bounded) may still exhibit a failing input on the real code.
+            hit = None
+            for prefix, fn in prop.replayers.items():
+                if r.unit.startswith(prefix) or fnmatch.fnmatch(r.unit, prefix):
+                    try:
+                        hit = fn(index, None, seed)
+                    except Exception as e:
+                        hit = {"found": False, "error": f"{type(e).__name__}: {e}"}
+                    break
+            if hit and hit.get("found"):
+                from .state import Obligation
+                import z3 as _z3
+                ob = Obligation(f"{r.unit}#bounded-replay-after-{r.status}", [], _z3.BoolVal(False), "bounded", None, r.unit,
+                                {"detail": r.detail[:400], "replay": hit, "note": "unit undecided deductively; bounded native replay found a failing input"})
+                ob.verdict, ob.backend, ob.model = "refuted", "bounded-execution", {"witness": hit.get("input")}
+                ob.meta["prefound"] = hit
+                r.obligations.append(ob)
             undecided.append(f"{r.unit}: {r.status}: {r.detail}")
         if getattr(r, "unit_kind", "") == "bounded":
             bounded_info.append({"unit": r.unit, **(r.info.get("bounded") or {})})
@@ -144,8 +162,8 @@ def main(argv=None):
                "solver": ob.backend, "solver_output": ob.meta.get("tried"),
                "model": {k: (v if len(str(v)) < 300 else str(v)[:300] + "...") for k, v in (ob.model or {}).items()}, "meta": _jsonable(ob.meta),
                "repo": index.repo}
-        replay = None
-        for prefix, fn in prop.replayers.items():
+        replay = ob.meta.get("prefound")
+        for prefix, fn in ([] if replay else prop.replayers.items()):
             if nn.startswith(prefix) or fnmatch.fnmatch(nn, prefix):
                 try:
                     replay = fn(index, ob, seed)
